@@ -102,10 +102,19 @@ impl RandomProp for BoxesLarge {
             .prop_flat_map(|(ty, many, plants, fin)| {
                 let cfg = gen::GenCfg::new(gen::Profile::Moderate, false, 2, 4600);
                 let geoms = if many {
-                    proptest::collection::vec(gen::geom(ty, gen::GenCfg::new(gen::Profile::Moderate, false, 2, 3)), 130..=300).boxed()
+                    // record counts at and around powers of two (a writer may treat every 2^k-th record specially)
+                    let n = prop_oneof![
+                        2 => 130usize..=300,
+                        1 => (7u32..=13, 0usize..3).prop_map(|(k, d)| (1usize << k) + d - 1),
+                        1 => Just(16_384usize),
+                    ];
+                    n.prop_flat_map(move |n| proptest::collection::vec(gen::geom(ty, gen::GenCfg::new(gen::Profile::Moderate, false, 2, 3)), n)).boxed()
                 } else {
                     proptest::collection::vec(gen::geom_sized(ty, cfg, 1..=2, 4096..=4600), 1..=2).boxed()
                 };
+                let mut plants = plants.clone();
+                plants.push(Plant { dim: 0, shape: u16::MAX, part: 0, pos: 1, value: F::of(-7.5e7) });
+                plants.push(Plant { dim: 1, shape: u16::MAX, part: 0, pos: 0, value: F::of(8.5e7) });
                 geoms.prop_map(move |geoms| BoxCase {
                     file: FileCase {
                         ty,
@@ -228,6 +237,23 @@ fn boxes_k<K: Kind>(c: &BoxCase, ctx: &mut Ctx) -> Result<(), Fail> {
                     r[k]
                 );
             }
+        }
+    }
+    // (a') the range accessors the writer itself consumes (EsriShape::{x,y,z,m}_range) agree with the same fold
+    for (i, (s, v)) in shapes.iter().zip(&views_).enumerate() {
+        use shapefile::record::EsriShape;
+        let r = match ref_bbox(ty, &v.parts) {
+            Some(r) => r,
+            None => continue,
+        };
+        let (xr, yr, zr, mr) = (s.x_range(), s.y_range(), s.z_range(), s.m_range());
+        ensure!(xr[0] == r[0].v() && xr[1] == r[2].v() && yr[0] == r[1].v() && yr[1] == r[3].v(), "shape-bbox", "shape {} ({}): x_range {:?} / y_range {:?} vs extremes {:?}", i, v.short(), xr, yr, &r[..4]);
+        if ty.has_z() {
+            ensure!(zr[0] == r[4].v() && zr[1] == r[5].v(), "shape-bbox", "shape {} ({}): z_range {:?} vs extremes [{:?}, {:?}]", i, v.short(), zr, r[4], r[5]);
+        }
+        let real = v.parts.iter().all(|p| p.pts.iter().all(|q| q[3].v() > NO_DATA));
+        if ty.has_m() && real {
+            ensure!(mr[0] == r[6].v() && mr[1] == r[7].v(), "shape-bbox", "shape {} ({}): m_range {:?} vs extremes [{:?}, {:?}]", i, v.short(), mr, r[6], r[7]);
         }
     }
     // (b) record box bytes, (c) header bytes
